@@ -1364,7 +1364,9 @@ func (ex *Exec) ghostStmt(st *State, s ast.Stmt, where string) {
 			// (and releases) that lock - subject to the declared lock order
 			for _, a := range call.Args {
 				if bl, ok := a.(*ast.BasicLit); ok {
-					ex.lockOrderCheck(st, strings.Trim(bl.Value, `"`), token.NoPos)
+					ln := strings.Trim(bl.Value, `"`)
+					ex.W.Trusted["`takes`: a monitor of "+ex.FName+" declares that the event it is attached to takes "+ln+" (a statement about the library behind that event)"] = true
+					ex.lockOrderCheck(st, ln, token.NoPos)
 				}
 			}
 		case "assume":
